@@ -20,7 +20,7 @@ INFO = {
 }
 
 PHASES = ('request', 'endpoint', 'render')
-HANDLERS = ['default', 'debug', 'reraise', 'broken', 'other']
+HANDLERS = ['default', 'debug', 'reraise', 'broken', 'other', 'broken-late']
 FIXED = [
     {'mws': [['request', 'endpoint', 'render'], ['request', 'endpoint', 'render']], 'levels': ['app', 'route'], 'render': True},
     {'mws': [['request']], 'levels': ['app'], 'render': False},
@@ -108,6 +108,9 @@ def positions(shape):
     return out
 
 
+CALLS = []
+
+
 def make_handler(name):
     from clastic import errors
     from clastic.errors import ErrorHandler, ContextualErrorHandler
@@ -122,6 +125,16 @@ def make_handler(name):
             def render_error(self, request, _error):
                 raise RuntimeError('broken render_error')
         return BrokenRE()
+    if name == 'broken-late':
+        class BrokenLateRE(ErrorHandler):
+            # fails only after it has rendered the error its way and scribbled on the result
+            def render_error(self, request, _error):
+                resp = ErrorHandler.render_error(self, request=request, _error=_error)
+                CALLS.append('broken-late rendered')
+                resp.data = b'half-finished zq9 custom body'
+                resp.headers['X-Zq9-Custom'] = 'scribbled'
+                raise RuntimeError('render_error failed after rendering')
+        return BrokenLateRE()
 
     class OtherRE(ErrorHandler):
         def render_error(self, request, _error):
@@ -268,7 +281,7 @@ def run_one(ctx, app, shape, cell, pos, beh, handler, probe0, rc, accept='*/*', 
         if r.exc is None or not isinstance(r.exc, TypeError):
             ctx.mismatch('reraise-nonresponse', '%s: expected TypeError to escape, got %r / %s' % (what, r.exc, r.status), rc)
             return
-    if handler == 'broken' and want[0] == 'status' and want[1] >= 400 and r.exc is None:
+    if handler in ('broken', 'broken-late') and want[0] == 'status' and want[1] >= 400 and r.exc is None:
         # "an error renderer that itself fails falls back to the default rendering of the same error"
         twin, tcell = default_twin(shape)
         tcell['pos'], tcell['act'] = pos, act
@@ -396,7 +409,7 @@ FIXED += [
 def shared_strategy():
     from hypothesis import strategies as st
     return st.tuples(st.sampled_from(['Forbidden', 'NotFound', 'Gone', 'ServiceUnavailable', 'ImATeapot']), st.booleans(),
-                     st.sampled_from(['raise', 'return']), st.sampled_from(HANDLERS[:2] + ['broken']),
+                     st.sampled_from(['raise', 'return']), st.sampled_from(HANDLERS[:2] + ['broken', 'broken-late']),
                      st.lists(st.sampled_from(['/hello', '/nothing', '/boom', '/hello/x', '/post-only', '/direct']), min_size=2, max_size=8),
                      st.sampled_from([None, 'text/html', 'application/json']))
 
